@@ -474,7 +474,7 @@ func vfC19SelectorCfg(cfgIdx int, cfg vfC19Cfg, grid []vfC19Obs) *vfC19Res {
 						path := append(append([]int32(nil), nd.path...), e)
 						res.fails[f.key] = &vfC19FailRec{key: f.key, pathLen: len(path), cfgIdx: cfgIdx, detail: map[string]any{
 							"driver": "selector-bfs", "constraints": cfg.String(), "why": f.why,
-							"observations": pathJSON(path),
+							"observations":           pathJSON(path),
 							"state_before_last_call": map[string]any{"lastMode": string(pre.lastMode), "lastDecisionTime": vfC19Rel(pre.lastTime), "now": vfC19Rel(t1)},
 							"strategy_answer":        vfC19DecisionJSON(base), "returned": vfC19DecisionJSON(out)}}
 					}
